@@ -67,11 +67,12 @@ func printSequenceDiagramStatements(m *sysl.Module, statements []*sysl.Statement
 				*sequencePairs = append(*sequencePairs, pair)
 				result += callStatement(appName, nextep, nextapp, indent)
 				previous := appName
-				out, err := generateSequenceDiagramHelper(m, nextapp, nextep, previous, indent, sequencePairs, false)
-				if err != nil {
-					panic("Error in generating sequence diagram; check if app names or endpoints are correct")
+				// a call to an application or endpoint the model does not define is drawn as
+				// an arrow only: there is nothing to expand
+				if out, err := generateSequenceDiagramHelper(
+					m, nextapp, nextep, previous, indent, sequencePairs, false); err == nil {
+					result += out
 				}
-				result += out
 			}
 		case *sysl.Statement_Ret:
 			retEndpoint := c.Ret.Payload
